@@ -65,6 +65,7 @@ type Op struct {
 	Host  string `json:"host,omitempty"`         // hex of option 12; "" = absent
 	Lease string `json:"lease,omitempty"`        // restart: lease time argument
 	Shift int    `json:"range_shift,omitempty"`  // restart with the configured range moved by this many addresses
+	CID   string `json:"client_id,omitempty"`    // hex of option 61; "" = absent
 	RO    bool   `json:"read_only_db,omitempty"` // restart with the lease database opened read-only (fault: it cannot be written any more)
 }
 
@@ -146,9 +147,16 @@ func (s *Sys) Ops() []Op {
 		return nil
 	}
 	var ops []Op
-	for _, m := range s.conf.MACs {
+	for i, m := range s.conf.MACs {
 		ops = append(ops, Op{Kind: "discover", MAC: m})
 		ops = append(ops, Op{Kind: "request", MAC: m, Host: hex.EncodeToString([]byte("h"))})
+		// option 61: the binding is a function of the hardware address, whatever identifier the
+		// client sends - one opaque identifier shared by all clients, and the conventional
+		// htype||chaddr form
+		ops = append(ops, Op{Kind: "discover", MAC: m, CID: "00636c69656e74"})
+		if i == 0 {
+			ops = append(ops, Op{Kind: "request", MAC: m, CID: "01" + m})
+		}
 	}
 	if s.ro {
 		// nothing written from here on can be expected on disk: only requests are explored
@@ -233,6 +241,10 @@ func buildReq(op Op) []byte {
 	if op.Host != "" {
 		h, _ := hex.DecodeString(op.Host)
 		p.Opts = append(p.Opts, pkt.Opt4{Code: 12, Data: h})
+	}
+	if op.CID != "" {
+		c, _ := hex.DecodeString(op.CID)
+		p.Opts = append(p.Opts, pkt.Opt4{Code: 61, Data: c})
 	}
 	return p.Bytes()
 }
@@ -358,6 +370,7 @@ func (s *Sys) Apply(op Op, live bool) (obs string) {
 		s.dead = true
 		if live {
 			s.violate("C02", "panic", "handler panicked: "+pan)
+			s.violate("C01", "history/range/panic", "the range handler panicked ("+pan+"): in the server this kills the process")
 			s.violate("C19", "range/panic", fmt.Sprintf("the range handler of an accepted configuration (read-only database: %v) panicked: %s", s.ro, pan))
 		}
 		return "PANIC"
@@ -366,6 +379,7 @@ func (s *Sys) Apply(op Op, live bool) (obs string) {
 		s.dead = true
 		if live {
 			s.violate("C02", "lock-left-held", "the range plugin returned with its mutex held: every later request blocks forever")
+			s.violate("C01", "history/range/lock-left-held", "the range plugin returned with its mutex held: every later DHCPv4 datagram blocks forever")
 		}
 		return "LOCK-LEFT-HELD"
 	}
@@ -1027,5 +1041,22 @@ func runContention(r *ev.Run) {
 			panic("E2 engine error in " + res.Scenario + ": no schedule made a request wait for the plugin lock")
 		}
 		alloc.ReportSched(r, "C03", res, map[string]interface{}{"pre": cs.Pre, "threads": cs.Threads, "virtual_wait_cost": waitCost.String()})
+	}
+}
+
+// Crash explores the request/restart/aging/read-only graphs for property id (C01): only
+// crashes (panic, mutex left held, non-termination through the operation watchdog) are
+// verdicts; the search is cut at budget.
+func Crash(r *ev.Run, id string, budget time.Duration) {
+	dl := time.Now().Add(budget)
+	for _, c := range confs(false) {
+		c := c
+		res := explore.Explore(r, explore.Config[Op]{
+			Name:      fmt.Sprintf("range %s-%s", c.Start, c.End),
+			New:       func() explore.Sys[Op] { return NewSys(r, id, c, false) },
+			MaxStates: 50000,
+			Deadline:  dl,
+		})
+		r.Sample("history-graph", map[string]interface{}{"plugin": "range", "config": c, "states": res.States, "transitions": res.Transitions, "depth": res.Depth, "fixpoint": res.Fixpoint})
 	}
 }
